@@ -17,14 +17,14 @@ import (
 type trErr struct{ msg string }
 
 type tr struct {
-	g       *gen
-	fi      *fnInfo
-	info    *types.Info
-	rootIdx map[*types.Var]int
+	g        *gen
+	fi       *fnInfo
+	info     *types.Info
+	rootIdx  map[*types.Var]int
 	canPanic bool
-	guards  []string // pending "divisor = 0" guards of the statement being translated
-	inLoop  *loopCtx
-	litRet  bool // translating the body of an immediately-invoked func literal
+	guards   []string // pending "divisor = 0" guards of the statement being translated
+	inLoop   *loopCtx
+	litRet   bool // translating the body of an immediately-invoked func literal
 }
 
 type loopCtx struct {
@@ -563,6 +563,21 @@ func (t *tr) expr(x ast.Expr, e *env) string {
 		if name, ok := e.names[obj]; ok {
 			return name
 		}
+		if v, ok := obj.(*types.Var); ok && v.Pkg() != nil && v.Parent() == v.Pkg().Scope() {
+			for _, cv := range t.g.spec.ConstVars {
+				if cv == v.Name() && v.Pkg() == t.fi.lp.pkg {
+					if val := t.g.varInit(t.fi.lp, v); val != nil {
+						s, err := constLit(val)
+						if err != nil {
+							t.fail(x, "%v", err)
+						}
+						return s
+					}
+					t.fail(x, "const_vars: %s has no constant initialiser or is assigned somewhere in its package", cv)
+				}
+			}
+			t.fail(x, "read of the package-level variable %s (list it under const_vars if it is never assigned)", v.Name())
+		}
 	case *ast.UnaryExpr:
 		k := t.kindOfExpr(x)
 		switch n.Op {
@@ -794,6 +809,17 @@ func (t *tr) call(c *ast.CallExpr, e *env) string {
 			return fmt.Sprintf("(if %s ≤ %s then %s else %s)", a, b, b, a)
 		}
 	}
+	// built-in: fn.Option[T].UnwrapOr(d) on a parameter path (the option is flattened to isSome/some)
+	if sel, ok := c.Fun.(*ast.SelectorExpr); ok && sel.Sel.Name == "UnwrapOr" && len(c.Args) == 1 {
+		if root, names, index, ok := t.pathOf(sel.X); ok && isFnOption(t.info.Types[sel.X].Type) {
+			k := t.kindOfExpr(c)
+			is := t.readPath(sel.X, root, append(append([]string(nil), names...), "isSome"),
+				append(append([]int(nil), index...), 0), kind{isBool: true}, e)
+			val := t.readPath(sel.X, root, append(append([]string(nil), names...), "some"),
+				append(append([]int(nil), index...), 1), k, e)
+			return fmt.Sprintf("(if %s = true then %s else %s)", is, val, t.expr(c.Args[0], e))
+		}
+	}
 	callee, recv, name := t.calleeOf(c)
 	if callee == nil {
 		t.fail(c, "call to %s, which is neither whitelisted (earlier in the spec) nor bound", name)
@@ -830,7 +856,12 @@ func (t *tr) calleeArgs(c *ast.CallExpr, callee *fnInfo, recv ast.Expr, e *env) 
 				t.fail(c, "callee %s has bound parameters and is called at two different call sites", callee.leanName)
 			}
 			t.fi.calls[callee.leanName] = printed
-			args = append(args, t.bindParam(c, "c:"+callee.leanName+":"+p.origin.bindExpr, callee.leanName+"_"+p.name, p.k))
+			pname := callee.leanName + "_" + p.name
+			if p.origin.propagated {
+				pname = p.name
+			}
+			args = append(args, t.bindParam(c, "c:"+callee.leanName+":"+p.origin.bindExpr, pname, p.k))
+			t.fi.byKey["c:"+callee.leanName+":"+p.origin.bindExpr].origin.propagated = true
 			continue
 		}
 		a := rootExpr(p.origin.rootIdx)
@@ -847,4 +878,15 @@ func (t *tr) calleeArgs(c *ast.CallExpr, callee *fnInfo, recv ast.Expr, e *env) 
 		args = append(args, t.readPath(a, root, names, index, p.k, e))
 	}
 	return strings.Join(args, " ")
+}
+
+// isFnOption recognises lnd's fn.Option[A] = struct{ isSome bool; some A }.
+func isFnOption(t types.Type) bool {
+	n, ok := t.(*types.Named)
+	if !ok || n.Obj().Name() != "Option" || n.Obj().Pkg() == nil ||
+		!strings.HasSuffix(n.Obj().Pkg().Path(), "lightningnetwork/lnd/fn/v2") {
+		return false
+	}
+	st, ok := n.Underlying().(*types.Struct)
+	return ok && st.NumFields() == 2 && st.Field(0).Name() == "isSome" && st.Field(1).Name() == "some"
 }
